@@ -31,6 +31,7 @@ class WorkerResult:
 _SAN_RE = [
     (re.compile(r"ERROR: AddressSanitizer: ([A-Za-z0-9_-]+)"), "asan"),
     (re.compile(r"ERROR: LeakSanitizer: (detected memory leaks)"), "lsan"),
+    (re.compile(r"SUMMARY: AddressSanitizer: \d+ byte\(s\) (leaked) in \d+ allocation"), "lsan"),
     (re.compile(r"WARNING: ThreadSanitizer: ([a-z A-Z-]+?) \("), "tsan"),
     (re.compile(r"runtime error: (.*)"), "ubsan"),
 ]
@@ -139,7 +140,10 @@ def _run_one(binary, env, args, timeout, workdir, idx):
     try:
         with open(errp, "rb") as f:
             data = f.read()
-        r.stderr_tail = data[-20000:].decode("utf-8", "replace")
+        # head and tail: a sanitizer report starts with its headline and may be much longer than the tail alone
+        if len(data) > 28000:
+            data = data[:8000] + b"\n[...]\n" + data[-20000:]
+        r.stderr_tail = data.decode("utf-8", "replace")
     except OSError:
         pass
     if os.path.exists(rep):
